@@ -55,6 +55,9 @@ func runC17(c *fw.Ctx) {
 	for i := 0; i < c.Pick(600, 30000); i++ {
 		c.Case(func(k *fw.K) { c17SameObjectTwice(k) })
 	}
+	for i := 0; i < c.Pick(400, 8000); i++ {
+		c.Case(func(k *fw.K) { c17SharedGradient(k) })
+	}
 	huge := [][]int{{100, 700}, {70001}, {33, 500}, {4097, 4}, {9, 90, 90}, {129, 128}}
 	if c.Quick() {
 		huge = huge[:4]
@@ -429,4 +432,64 @@ func c17SameObjectTwice(k *fw.K) {
 		g2.Data[i] += c2.Data[i]
 	}
 	check(2, g2)
+}
+
+// c17SharedGradient: two (or three) DIFFERENT parameters of equal shape are operands of one Add, so back-propagation may hand
+// them the very same gradient tensor object; one optimizer steps them one after the other. Each must become its own w - lr*g.
+func c17SharedGradient(k *fw.K) {
+	shape := RandShape(k.Rng, 0, 3, 3)
+	lr := c17LRs[3+k.Rng.Intn(5)]
+	n := 2 + k.Rng.Intn(2)
+	k.Case = map[string]any{"scenario": "parameters that are operands of one Add, stepped consecutively by one optimizer", "shape": shape, "learning_rate": lr.name, "parameters": n}
+	k.Key("shared-gradient/%s/%s/%d", shapeKey(shape), lr.name, n)
+	k.Count("shared_gradient_cases", 1)
+	conf := *lr.conf
+	opt := optimizers.NewSGD(&conf)
+	ws := make([]tensor.Tensor, n)
+	wvs := make([]*ref.T, n)
+	var sum tensor.Tensor
+	var err error
+	if p := call(func() {
+		for i := range ws {
+			wvs[i] = Shuffled(k.Rng, Unique(k.Rng, shape, 0.2, 9))
+			ws[i] = rt.MustLeaf(wvs[i], true)
+			if i == 0 {
+				sum = ws[0]
+			} else if sum, err = sum.Add(ws[i]); err != nil {
+				return
+			}
+		}
+		var y tensor.Tensor
+		if y, err = sum.Mul(rt.MustLeaf(Shuffled(k.Rng, Unique(k.Rng, shape, 1, 4)), false)); err == nil {
+			err = tensor.BackPropagate(y)
+		}
+	}); p != nil || err != nil {
+		k.Failf("building the graph failed: panic=%v err=%v", p, err)
+		return
+	}
+	for i := range ws {
+		g := ws[i].Gradient()
+		if g == nil {
+			k.Failf("parameter %d has no gradient", i)
+			return
+		}
+		gv, e1 := rt.Read(g)
+		w := ws[i]
+		if p := call(func() { err = opt.Update(&w) }); p != nil || err != nil || e1 != nil {
+			k.Failf("Update(parameter %d of %d): panic=%v err=%v %v", i, n, p, err, e1)
+			return
+		}
+		nv, err := rt.Read(w)
+		if err != nil || !ref.SameShape(nv.Shape, shape) {
+			k.Failf("parameter %d after the step is unreadable or of shape %v (%v)", i, nv, err)
+			return
+		}
+		for e := range nv.Data {
+			want := wvs[i].Data[e] - lr.lr*gv.Data[e]
+			if math.Abs(nv.Data[e]-want) > 4e-16*(math.Abs(wvs[i].Data[e])+math.Abs(lr.lr*gv.Data[e])) {
+				k.Failf("parameter %d of %d (all operands of one Add, stepped one after the other): element %d = %v, expected its own w - lr*g = %v - %v*%v = %v", i, n, e, nv.Data[e], wvs[i].Data[e], lr.lr, gv.Data[e], want)
+				return
+			}
+		}
+	}
 }
